@@ -17,11 +17,18 @@ LEVEL_TEXT = ("Lean theorems about the converter model: fromWords (asWords v) = 
               "format on generated in-domain values; the oracle checks format->extract equality, the print/parse/fetch/extract "
               "leg, and refusal of out-of-domain values, on the implementation.")
 LEVEL_NOTE = ("Known findings (excluded from the in-domain stream, visited in their own): D15 empty list, D16 one-element "
-              "[None]/[Auto] lists, D18 path starting with '~'. Floats compared to 10 significant digits.")
+              "[None]/[Auto] lists, D18 path starting with '~'. Floats compared to 10 significant digits. The print leg is run at "
+              "the default width on every case (with .multiple parameters: the text must read back; values are compared "
+              "where no instance can collapse) and at a narrower width on every second case; 40% of the cases carry list "
+              "values / choice alternative lists longer than a print line, mixing bare and quoted words. A printed text that "
+              "does not parse on an input with a line-spanning list element followed by a further element is counted under "
+              "finding D6 (recorded under C01: continuation mark after a multi-line quoted word) while D6's witness fails.")
 TECHNIQUE = "Lean 4 round-trip theorems per converter + differential correspondence of format + round-trip oracle"
 RULE = ("masters (all built-in types, multiples, nested scopes) x in-domain Python values per type (strings over quotes, "
         "backslashes, newlines, unicode; ints of any magnitude; floats incl. inf, tiny and huge; lists within bounds; choices; "
-        "None/Auto) assigned to an extracted object; non-trivial = at least one value differs from the default")
+        "None/Auto; list values and choice alternative lists longer than one print line with bare and quoted words mixed) "
+        "assigned to an extracted object, printed at the default and at narrower widths; non-trivial = at least one value "
+        "differs from the default")
 ASSUMPTIONS = ["values are assigned through the public scope_extract attributes"]
 
 CHARS = ["a", "b", " ", "'", '"', "\\", "\n", "#", "{", "}", ";", "=", "é", "\t", "*", "+", "None", "x y", "~"]
@@ -40,8 +47,56 @@ def rand_int(rng):
     return rng.choice([0, 1, -1, 7, 10, 255, -300, 10 ** 12, 10 ** 25, -(10 ** 20), 2 ** 53 + 1])
 
 
-def new_value(rng, mo, klass):
-    """an in-domain Python value for master definition mo; appends finding classes met to klass"""
+IDENT_CHARS = "abcdefghijklmnopqrstuvwxyzABCDEFGHIJKLMNOPQRSTUVWXYZ_"
+PLAIN_PUNCT = ["(+)", "(-)", "-", " ", "/", ":", ";", "=", ",", "'", '"', "#", "{", "}", "\\", "é", "~", "*", "+"]
+
+
+def rand_ident(rng):
+    """a string the writers leave unquoted: a standard identifier, possibly dotted"""
+    s = rng.choice(IDENT_CHARS) + "".join(rng.choice(IDENT_CHARS + "0123456789") for _ in range(rng.choice([0, 1, 3, 6, 9])))
+    if rng.random() < 0.1:
+        s += "." + rng.choice(IDENT_CHARS) + rng.choice(IDENT_CHARS + "0123456789")
+    return s
+
+
+def rand_label(rng):
+    """a string the writers must quote (blank, bracket, punctuation inside or around an identifier); one line"""
+    a, b = rand_ident(rng)[:6], rand_ident(rng)[:4]
+    p = rng.choice(PLAIN_PUNCT)
+    return rng.choice([a + p + b, a + p, p + a, a + p + b + p])
+
+
+def long_strings(rng):
+    """a list of strings whose printed form is longer than one print line (default width 79, also when nested): a mix of
+    elements that are written bare and elements that are written in quotes, so that the places where the printer breaks
+    the line fall between every combination of bare / quoted / multi-line words"""
+    target = rng.choice([60, 80, 100, 140, 220])
+    p_bare = rng.choice([0.2, 0.5, 0.5, 0.8])
+    out, n = [], 0
+    while n < target:
+        r = rng.random()
+        if r < 0.015:
+            e = rand_label(rng) + "\n" + rand_ident(rng)       # a word that spans lines
+        elif r < 0.10:
+            e = rand_str(rng)
+        elif rng.random() < p_bare:
+            e = rand_ident(rng)
+        else:
+            e = rand_label(rng)
+        out.append(e)
+        n += len(e) + 1
+    return out
+
+
+def multi_line_before_end(lst):
+    """input class of finding D6 (recorded under C01): a list value with an element that spans lines and is followed by a
+    further element - when the printer breaks the line right after it, the continuation mark is not accepted"""
+    return any(isinstance(e, str) and "\n" in e for e in lst[:-1])
+
+
+def new_value(rng, mo, klass, long=False):
+    """an in-domain Python value for master definition mo; appends finding classes met to klass.
+    long: list-typed values are made longer than a print line"""
     t = mo.type
     pt = None if t is None else t.phil_type
     k = rng.random()
@@ -72,6 +127,8 @@ def new_value(rng, mo, klass):
         smin = t.size_min or 0
         smax = t.size_max if t.size_max is not None else smin + 3
         n = rng.randint(smin, max(smin, smax))
+        if long and t.size_max is None:
+            n = smin + rng.choice([12, 20, 30, 45])     # the printed numbers run over one or more print lines
         if n == 0:
             klass.append("D15")
         out = []
@@ -100,15 +157,22 @@ def new_value(rng, mo, klass):
                 sel = alts[:1]
             return sel
         return rng.choice(alts)
+    if (pt == "strings" or t is None) and long:
+        out = long_strings(rng)
+        if multi_line_before_end(out):
+            klass.append("D6")
+        return out
     if pt == "strings" or t is None:
         n = rng.choice([1, 1, 2, 3])
         # incl. elements that spell None/Auto in any letter case (the readers take a lone unquoted one as the atom)
         out = [rng.choice(["none", "NONE", "auto", "AUTO", "nOnE", "None", "Auto", "nonesuch", "automatic"])
                if rng.random() < 0.2 else rand_str(rng) for _ in range(n)]
+        if multi_line_before_end(out):
+            klass.append("D6")
         return out
     if pt == "words":
         out = []
-        for _ in range(rng.choice([1, 2])):
+        for _ in range(rng.choice([8, 14, 24]) if long else rng.choice([1, 2])):
             q = rng.choice([None, '"', "'"])
             v = rand_str(rng).replace("\n", " ") if q else rng.choice(["w", "a.b", "x-1", "p/q", "1.5"])
             out.append(tokenizer.word(value=v, quote_token=q))
@@ -116,8 +180,12 @@ def new_value(rng, mo, klass):
     return None
 
 
-def assign(rng, ms, ex, klass, changed):
-    """walk master scope ms and extracted object ex, assigning new in-domain values"""
+LIST_TYPES = ("strings", "words", "ints", "floats")
+
+
+def assign(rng, ms, ex, klass, changed, long=False):
+    """walk master scope ms and extracted object ex, assigning new in-domain values (long: list values longer than a print
+    line, and every list-typed parameter gets one)"""
     seen = set()
     for mo in ms.objects:
         if mo.is_disabled or mo.name in seen:
@@ -125,23 +193,78 @@ def assign(rng, ms, ex, klass, changed):
         seen.add(mo.name)
         cur = getattr(ex, mo.name, None)
         if mo.is_definition:
-            if rng.random() < 0.6:
+            is_list = mo.type is None or mo.type.phil_type in LIST_TYPES
+            if rng.random() < (0.9 if long and is_list else 0.6):
                 if mo.multiple:
                     n = rng.choice([1, 2, 3])
-                    vals = [new_value(rng, mo, klass) for _ in range(n)]
+                    vals = [new_value(rng, mo, klass, long) for _ in range(n)]
                     lst = getattr(ex, mo.name)
                     del lst[:]
                     lst.extend(v for v in vals if not (v is None and mo.optional is True))
                 else:
-                    setattr(ex, mo.name, new_value(rng, mo, klass))
+                    setattr(ex, mo.name, new_value(rng, mo, klass, long))
                 changed.append(mo.name)
         else:
             if mo.multiple:
                 for inst in (cur or []):
                     if inst is not None:
-                        assign(rng, mo, inst, klass, changed)
+                        assign(rng, mo, inst, klass, changed, long)
             elif cur is not None:
-                assign(rng, mo, cur, klass, changed)
+                assign(rng, mo, cur, klass, changed, long)
+
+
+def stretch_choices(rng, nodes):
+    """choice parameters with many alternatives, some of which need quotes (`"rigid body"`): the alternatives no longer fit
+    on one print line, and the written words are a mix of bare and quoted ones"""
+    for nd in nodes:
+        if nd["k"] == "s":
+            stretch_choices(rng, nd["kids"])
+        elif nd["type"] and nd["type"].startswith("choice") and rng.random() < 0.5:
+            alts, seen = [], set()
+            p_bare = rng.choice([0.3, 0.5, 0.8])
+            for _ in range(rng.choice([8, 12, 18])):
+                if rng.random() < p_bare:
+                    a = rand_ident(rng)
+                else:
+                    a = rand_ident(rng)[:7] + rng.choice([" ", "-", "/", "(", ")", ":", ",", " "]) + rand_ident(rng)[:5]
+                if a.lower() in seen or a.lower() in ("none", "auto"):
+                    continue
+                seen.add(a.lower())
+                alts.append(a)
+            star = {rng.randrange(len(alts))}
+            if nd["type"] != "choice" and rng.random() < 0.5:
+                star.add(rng.randrange(len(alts)))
+            ws = []
+            for i, a in enumerate(alts):
+                a = ("*" if i in star else "") + a
+                ws.append(a if _bare_ok(a) else '"%s"' % a)
+            nd["default"] = " ".join(ws)
+
+
+def _bare_ok(a):
+    return all(c in IDENT_CHARS + "0123456789.*" for c in a)
+
+
+def d6_active():
+    """finding D6 is recorded under property C01 (print -> parse is not the identity when the printer breaks the line right
+    after a quoted word that spans lines); it is the same defect as seen from C09, so failures on inputs of its class are
+    covered by it as long as its own witness still fails on the tree under test"""
+    import json
+    import os
+    here = os.path.dirname(os.path.dirname(os.path.dirname(os.path.abspath(__file__))))
+    try:
+        fs = [f for f in json.load(open(os.path.join(here, "known_findings.json")))
+              if f.get("id") == "D6" and f.get("property") == "C01" and f.get("status") == "finding"]
+    except Exception:
+        return False
+    if not fs:
+        return False
+    w = fs[0]["witness"]
+    try:
+        t = freephil.parse(input_string=w["text"]).as_str(print_width=w["width"])
+        return freephil.parse(input_string=t).as_str(print_width=w["width"]) != t
+    except RuntimeError:
+        return True
 
 
 def close(a, b):
@@ -187,17 +310,33 @@ def fmt_tables(x, out):
             pass
 
 
+def print_leg(m, formatted, want, width, values, seen):
+    """printing the formatted tree at the given width, parsing it and fetching it again returns the values (values=False:
+    only that the printed text reads back at all, for masters with multiple parameters, where instances may collapse)"""
+    text = formatted.as_str() if width is None else formatted.as_str(print_width=width)
+    seen["printed"] = text
+    got2 = _fetch.dump(m.fetch(source=freephil.parse(input_string=text)).extract())
+    if values and not close(got2, want):
+        return "format -> print%s -> parse -> fetch -> extract returns different values" % (
+            "" if width is None else "(print_width=%d)" % width)
+    return None
+
+
 def run(ctx):
     rng = ctx.rng
     n = ctx.scale(2500, 40000, 8000)
     cases, reqs, impls = [], [], []
+    d6 = d6_active()
     for i in range(n):
         if ctx.time_left() < 30:
             ctx.notes.append("stopped early on time budget")
             break
         multiples = i % 3 != 0
+        long = i % 5 in (1, 2)          # values longer than a print line
         tree = mgen.MasterGen(rng, depth=rng.choice([0, 1, 2]), multiples=multiples, nested_multiples=False,
                               disabled=False, further=False).tree()
+        if long:
+            stretch_choices(rng, tree)
         mt = mgen.render_master(tree)
         srcs = [mgen.SourceGen(rng, valid_only=True, unknown=False, disabled=False).text(tree)] if multiples else []
         m = freephil.parse(input_string=mt)
@@ -206,30 +345,48 @@ def run(ctx):
         except BaseException:
             continue
         klass, changed = [], []
-        assign(rng, m, params, klass, changed)
+        assign(rng, m, params, klass, changed, long)
         ctx.case((mt, repr(_fetch.dump(params))), nontrivial=bool(changed))
+        if long:
+            ctx.count("long_values")
         for c in set(klass):
             ctx.count("class_" + c)
         want = _fetch.dump(params)
         f = None
+        leg = "format"
+        width = None
+        seen = {}
         try:
             formatted = m.format(python_object=params)
             got = _fetch.dump(formatted.extract())
             if not close(got, want):
                 f = "format -> extract returns different values"
-            elif not multiples:
-                text = formatted.as_str()
-                got2 = _fetch.dump(m.fetch(source=freephil.parse(input_string=text)).extract())
-                if not close(got2, want):
-                    f = "format -> print -> parse -> fetch -> extract returns different values"
+            else:
+                # the print leg: at the default width, and at a narrower one (line breaks at other places of the same value)
+                leg = "print"
+                f = print_leg(m, formatted, want, None, not multiples, seen)
+                if f is None and i % 2 == 0:
+                    width = rng.choice([20, 30, 45, 60])
+                    f = print_leg(m, formatted, want, width, not multiples, seen)
         except BaseException as e:
             f = "round trip raised %s: %s" % (type(e).__name__, str(e)[:120])
+            if leg == "print":
+                f += " (print leg%s)" % ("" if width is None else ", print_width=%d" % width)
         case = {"master": mt, "values": repr(want)[:3000]}
         if f:
+            if leg == "print" and "printed" in seen:
+                case["printed"] = seen["printed"][:3000]
             cls = set(klass)
-            if f.startswith("format -> extract"):
+            if leg == "format":
                 cls.discard("D15")      # an empty list has no SPELLING (the print/parse leg); format -> extract must keep it
-            ctx.fail(case, f, finding=sorted(cls), model_violates=None)
+                cls.discard("D6")       # the line-break defect is one of the printed text only
+            if "D6" in cls and d6 and leg == "print" and f.startswith("round trip raised RuntimeError") \
+                    and cls.isdisjoint(("D15", "D16", "D18")):
+                # the printed text does not parse, on an input of the class of finding D6, which is recorded under C01 (the
+                # runner only knows this property's findings) and whose witness still fails on this tree
+                ctx.count("print_leg_failures_covered_by_C01_D6")
+            else:
+                ctx.fail(case, f, finding=sorted(cls), model_violates=None)
         # correspondence of format
         ev, fm0 = mgen.tables([mt])
         fm = {}
